@@ -181,13 +181,21 @@ def _js(o):
 
 def run_sharded(fn, shards, nproc=None):
     """Run fn(shard) for every shard in forked worker processes; yields results as they finish.
-    A worker that dies returns an exception object instead of a result."""
+    A worker that raises returns a Part marked inconclusive; a worker that is KILLED (e.g. by the OOM killer)
+    breaks the pool - the remaining shards are then reported as inconclusive instead of hanging forever."""
+    import concurrent.futures as cf
     import multiprocessing as mp
     nproc = nproc or min(16, os.cpu_count() or 4)
     ctx = mp.get_context("fork")
-    with ctx.Pool(min(nproc, max(1, len(shards)))) as pool:
-        for r in pool.imap_unordered(_guard(fn), shards):
-            yield r
+    with cf.ProcessPoolExecutor(max_workers=min(nproc, max(1, len(shards))), mp_context=ctx) as ex:
+        futs = {ex.submit(_guard(fn), sh): sh for sh in shards}
+        for fu in cf.as_completed(futs):
+            try:
+                yield fu.result()
+            except BaseException as e:      # BrokenProcessPool and friends
+                p = Part()
+                p.inconclusive.append("worker process for shard %r was lost (%s: %s)" % (futs[fu], type(e).__name__, e))
+                yield p
 
 
 class _guard(object):
